@@ -857,6 +857,8 @@ def to_events(env, run):
     stale_lo = [0]
     lo_req = {}             # (conn, corr) -> when the ListOffsets request reached the broker (virtual ms)
     adopted_at = {}         # cid -> vt of its latest adoption (asgS) / subscription change
+    asked_since = {}        # cid -> partitions an OffsetFetch answer reached the member for since then
+    lo_ok = {}              # (conn, corr) -> partitions of that ListOffsets request that can belong to this epoch
     offfetch_slot = {}      # (conn, corr) -> slot to fill when the reply is seen delivered
     last_sync_gen = {}      # cid -> generation of the last delivered successful SyncGroup reply
     n = len(trace)
@@ -881,6 +883,7 @@ def to_events(env, run):
             op = e["op"]
             if op == "sub":
                 adopted_at[e["m"]] = e["vt"]
+                asked_since[e["m"]] = set()
                 out.append(f"sub:{m}")
                 out.append(f"subT:{m}:{_nl(sorted(TOPIC_IDS[t] for t in e.get('topics', [])))}")
             elif op == "revS":
@@ -890,6 +893,7 @@ def to_events(env, run):
             elif op == "asgS":
                 g = last_sync_gen.get(e["m"], 0)
                 adopted_at[e["m"]] = e["vt"]
+                asked_since[e["m"]] = set()
                 out.append(f"asgS:{m}:{g}:{_nl(sorted(pidx(tuple(tp)) for tp in e['tps']))}")
             elif op == "asgE":
                 out.append(f"asgE:{m}")
@@ -955,6 +959,7 @@ def to_events(env, run):
                 offfetch_slot[key] = len(slots)     # the answer is computed now; filled in if it gets delivered
             elif api == "ListOffsets":
                 lo_req[key] = e.get("arrived", e["vt"])
+                lo_ok[key] = set(asked_since.get(cid, ()))
         elif ev == "reply" and e["client"] in midx:
             cid = e["client"]
             m = midx[cid]
@@ -991,6 +996,7 @@ def to_events(env, run):
                     toks = []
                     for tpc in f["topics"]:
                         for p in tpc["partitions"]:
+                            asked_since.setdefault(cid, set()).add((tpc["topic"], p["partition"]))
                             if p["error_code"] == 0 and p["offset"] >= 0:
                                 toks.append((f"offer:{m}:{pidx((tpc['topic'], p['partition']))}:{p['offset']}:c", i))
                             elif p["error_code"] == 0:
@@ -1002,12 +1008,19 @@ def to_events(env, run):
                 # for the previous one (it waited behind a parked Fetch on the same connection): its answer
                 # is no offer to the current epoch.  If the implementation uses it all the same, the next
                 # delivery / commit has no start position and is rejected there.
+                ok_tps = lo_ok.pop(key, None)
                 if delivered and sent is not None and sent <= adopted_at.get(cid, -1):
                     stale_lo[0] += 1
                 elif delivered:
                     for tpc in f["topics"]:
                         for p in tpc["partitions"]:
                             if p["error_code"] == 0 and p.get("offset", -1) >= 0:
+                                # a reset request of the CURRENT epoch can only follow an OffsetFetch answer of this
+                                # epoch for that partition (the request was sent by the previous assignment's task
+                                # and crossed the adoption on the wire otherwise)
+                                if ok_tps is not None and (tpc["topic"], p["partition"]) not in ok_tps:
+                                    stale_lo[0] += 1
+                                    continue
                                 out.append(f"offer:{m}:{pidx((tpc['topic'], p['partition']))}:{p['offset']}:r")
         elif ev == "group" and e["group"] == GROUP:
             op = e["op"]
@@ -1071,12 +1084,17 @@ def check_c04(run):
     lo_arrived = {(e["conn"], e["corr"]): e.get("arrived", e["vt"]) for e in trace
                   if e["ev"] == "request" and e.get("api") == "ListOffsets"}
     adopted_at = {}
+    asked_since = {}
+    lo_ok = {}
     for i, e in enumerate(trace):
         ev = e["ev"]
+        if ev == "request" and e.get("api") == "ListOffsets" and e.get("client") in members:
+            lo_ok[(e["conn"], e["corr"])] = set(asked_since.get(e["client"], ()))
         if ev == "h":
             cid = e["m"]
             if e["op"] in ("asgS", "sub"):
                 adopted_at[cid] = e["vt"]
+                asked_since[cid] = set()
                 for k in [k for k in epoch if k[0] == cid]:
                     if epoch[k][0] is not None and not epoch[k][1]:
                         starts.setdefault(k, []).append(epoch[k][0])
@@ -1126,9 +1144,14 @@ def check_c04(run):
             if e["api"] == "ListOffsets" and lo_arrived.get((e["conn"], e["corr"]), 1 << 60) <= adopted_at.get(cid, -1):
                 continue        # answer to a request of the previous assignment (see to_events)
             if e["api"] in ("OffsetFetch", "ListOffsets"):
+                ok_tps = lo_ok.get((e["conn"], e["corr"])) if e["api"] == "ListOffsets" else None
                 for tpc in f["topics"]:
                     for p in tpc["partitions"]:
                         tp = (tpc["topic"], p["partition"])
+                        if e["api"] == "OffsetFetch":
+                            asked_since.setdefault(cid, set()).add(tp)
+                        elif ok_tps is not None and tp not in ok_tps:
+                            continue    # reset request of the previous assignment (see to_events)
                         ep = epoch.get((cid, tp))
                         if p["error_code"] == 0 and e["api"] == "OffsetFetch" and p["offset"] < 0 and ep is not None:
                             ep[2] = True        # told: no committed offset
